@@ -143,6 +143,7 @@ func c15(c *core.Check) {
 	c.Min("ast-attribute-copied", 60)
 	// (c) ENUM ConstType
 	c15ownerFile(c)
+	c15lastDot(c)
 	c15constTypes(c)
 	c15metaSymmetry(c)
 	// (d) template
